@@ -36,9 +36,33 @@ func (fx *FuncExec) execCall(fn *ssa.Function, st *State, reach *Term, res ssa.V
 	} else {
 		resType = cc.Signature().Results()
 	}
+	// anchors ret:<callee>#k are evaluated in the state right after the call, with ret0.. bound to its results
+	retAnchors := func(reach *Term, name string, ord int, all []Value, v Value) *Term {
+		ac := fx.anchorContract(fn)
+		if ac == nil {
+			return reach
+		}
+		rargs := append([]Value{}, all...)
+		extra := map[string]Value{}
+		if tv, ok := v.(VTuple); ok {
+			for i, x := range tv.vals {
+				extra[fmt.Sprintf("ret%d", i)] = x
+			}
+		} else if v != nil {
+			extra["ret0"] = v
+		}
+		fx.anchorExtra = extra
+		reach = fx.runAnchors(fn, ac, st, reach, fmt.Sprintf("ret:%s#%d", name, ord), rargs, src)
+		fx.anchorExtra = nil
+		return reach
+	}
 	if cc.IsInvoke() {
 		recv := fx.valueOf(st, cc.Value)
 		r, v := fx.invoke(fn, st, reach, recv, cc.Method, args, resType, src)
+		if recvT := cc.Method.Type().(*types.Signature).Recv(); recvT != nil {
+			name := shortType(recvT.Type()) + "." + cc.Method.Name()
+			r = retAnchors(r, name, fx.invokeOrdinal(fn, cc), append([]Value{recv}, args...), v)
+		}
 		setRes(v)
 		return r
 	}
@@ -54,6 +78,10 @@ func (fx *FuncExec) execCall(fn *ssa.Function, st *State, reach *Term, res ssa.V
 			reach = fx.runAnchors(fn, ac, st, reach, fmt.Sprintf("call:%s#%d", nm, ord), all, src)
 		}
 		r, v := fx.callFunc(st, reach, f.fn, f.bind, all, resType, src)
+		if fx.anchorContract(fn) != nil {
+			nm, ord := fx.callSiteName(fn, cc, f.fn)
+			r = retAnchors(r, nm, ord, all, v)
+		}
 		setRes(v)
 		return r
 	}
@@ -620,6 +648,9 @@ func (fx *FuncExec) runAnchors(fn *ssa.Function, ac *Contract, st *State, reach 
 		for i, v := range args {
 			env.binds[fmt.Sprintf("arg%d", i)] = v // the call's arguments (arg0 is the receiver of a method)
 		}
+		for k, v := range fx.anchorExtra {
+			env.binds[k] = v
+		}
 		switch a.Kind {
 		case "assert":
 			t, err := fx.evalClause(a.Clause, env)
@@ -678,6 +709,29 @@ func (fx *FuncExec) callOrdinal(fn *ssa.Function, cc *ssa.CallCommon, callee *ss
 			}
 			if c != nil && c.StaticCallee() == callee {
 				sites = append(sites, site{int(in.Pos()), c})
+			}
+		}
+	}
+	sort.Slice(sites, func(i, j int) bool { return sites[i].pos < sites[j].pos })
+	for i, s := range sites {
+		if s.cc == cc {
+			return i + 1
+		}
+	}
+	return 0
+}
+
+// invokeOrdinal numbers the interface method calls of the same method inside fn in source order, from 1.
+func (fx *FuncExec) invokeOrdinal(fn *ssa.Function, cc *ssa.CallCommon) int {
+	type site struct {
+		pos int
+		cc  *ssa.CallCommon
+	}
+	var sites []site
+	for _, b := range fn.Blocks {
+		for _, in := range b.Instrs {
+			if c, ok := in.(*ssa.Call); ok && c.Call.IsInvoke() && c.Call.Method == cc.Method {
+				sites = append(sites, site{int(in.Pos()), &c.Call})
 			}
 		}
 	}
